@@ -557,3 +557,33 @@ _with_sanitizers("C18", lambda seed: [san_step("asan_buffers_uring", "asan", "vu
 PLANS["C18"]["level_text"] += SAN_NOTE["asan"]
 _with_sanitizers("C12", lambda seed: [san_step("asan_contract_uring_w1", "asan", "vudp", "udp_live", ["--scenario", "contract", "--backend", "uring", "--workers", "1", "--datagrams", "6000"], crash_is_violation=True)])
 PLANS["C12"]["level_text"] += SAN_NOTE["asan"]
+
+# ---- second batch of sanitizer passes (added in the extension phase, DESIGN 7.7) ----
+# C12: the parser entry points under AddressSanitizer in the sharded children (simd-json, httparse, zerocopy and the
+# hand-written splitters on hostile input), and the non-JSON entry points under Miri in-process.
+_with_sanitizers("C12", lambda seed: [san_step("asan_crash_shards", "asan", "vproto", "crash_shards", ["--cases", "60000", "--budget_s", "200", "--par", "12"], env={"VERIF_CHILD_STDERR": "1"})]
+                 + miri_shards("crash_inproc", "vproto", "crash_shards", 3, ["--inproc", "--cases", "60", "--budget_s", "240"]))
+PLANS["C12"]["level_text"] += " Further sanitizer passes (thorough): the sharded parser corpus under AddressSanitizer (all eleven entry points), and the udp / http / peer-id / access-list entry points under Miri in-process."
+# C15: the WebTorrent codec (simd-json is unsafe SIMD code) under AddressSanitizer with its ordinary oracles.
+_with_sanitizers("C15", lambda seed: [san_step("asan_codec_ws", "asan", "vproto", "codec_ws", ["--messages", "60000", "--budget_s", "150"])])
+PLANS["C15"]["level_text"] += " Sanitizer pass (thorough): the same engine rebuilt with AddressSanitizer (simd-json's SIMD parser on every generated and hostile message); Miri is impractical here (60 s per message)."
+# C02: the selection enumeration under Miri for small swarms.
+_with_sanitizers("C02", lambda seed: [san_step("miri_udp_select", "miri", "vudp", "udp_select", ["--max_size", "7", "--full_cover_size", "0", "--budget_s", "240"]),
+                                      san_step("miri_http_select", "miri", "vhttp", "http_select", ["--max_size", "7", "--budget_s", "240"]),
+                                      san_step("miri_ws_select", "miri", "vws", "ws_select", ["--max_size", "7", "--budget_s", "240"])])
+PLANS["C02"]["level_text"] += SAN_NOTE["miri"]
+# C04: the threaded stress program under Miri (data races, the Arc::get_mut / strong-count protocol, deadlock) with different
+# scheduler seeds per shard.
+_with_sanitizers("C04", lambda seed: [san_step("miri_udp_stress_s%d" % i, "miri", "vudp", "udp_stress", ["--rounds", "6", "--budget_s", "240", "--no_watchdog", "--shard", str(201 + i)], miriflags="-Zmiri-seed=%d" % (seed * 16 + i)) for i in range(4)])
+PLANS["C04"]["level_text"] += " Also (thorough): four shards of the stress program under Miri with distinct scheduler seeds (data races, invalid Arc::get_mut use, deadlock as reported by the interpreter)."
+# C11: reload sequences through ArcSwap and the caches under Miri.
+_with_sanitizers("C11", lambda seed: miri_shards("access_list", "vproto", "access_list", 2, ["--sequences", "25", "--budget_s", "240"]))
+PLANS["C11"]["level_text"] += SAN_NOTE["miri"]
+# C20 / C10: the statistics / expiry clauses ride on the same storage engine as C01.
+_with_sanitizers("C20", lambda seed: miri_shards("udp_swarm", "vudp", "udp_swarm", 2, ["--histories", "12", "--budget_s", "240"]))
+PLANS["C20"]["level_text"] += SAN_NOTE["miri"]
+
+# C12: coverage-guided libFuzzer runs (cargo-fuzz, AddressSanitizer) of eight parser entry points, seeded with the shard corpus
+_c12fz = PLANS["C12"]["steps"]
+PLANS["C12"]["steps"] = lambda tier, seed: _c12fz(tier, seed) + ([{"name": "libfuzzer", "kind": "script", "script": "fuzz_step.py", "args": ["--secs", "200"], "timeout_s": 3000}] if tier == "thorough" else [])
+PLANS["C12"]["level_text"] += " Coverage-guided pass (thorough): eight libFuzzer targets (udp request/response, http request bytes / get path / response, ws in text / binary, ws out) built with AddressSanitizer, overflow checks and debug assertions, seeded with the shard corpus, 200 s each with forked workers; libFuzzer only generates the workload, the oracle is the panic / abort / sanitizer report / rss limit that ends a fuzzing process."
